@@ -633,3 +633,20 @@ pub proof fn lemma_sl_bind_pre(src: A, d: Set<usize>, pf: Pf, g: A, v1: int, j: 
     let v2 = src.edges[v1][j].1 as int;
     lemma_sl_room(g, d, v1, v2);
 }
+
+/// the predicate that accepts every edge (slice(), merge())
+pub closed spec fn pf_all() -> Pf { |a: usize, b: usize, c: Label| true }
+
+/// an accepted edge u -> w in front of a path from w
+pub proof fn lemma_reach_prepend(a: A, pf: Pf, u: usize, w: usize, k: usize)
+    requires acc(a, pf, u, w), reachable(a, pf, w, k),
+    ensures reachable(a, pf, u, k),
+{
+    let p = choose|p: Seq<usize>| is_path(a, pf, w, k, p);
+    let q = seq![u] + p;
+    assert forall|i: int| 0 <= i < q.len() - 1 implies acc(a, pf, #[trigger] q[i], q[i + 1]) by {
+        if i == 0 { assert(q[0] == u && q[1] == p[0]); } else { assert(q[i] == p[i - 1] && q[i + 1] == p[i - 1 + 1]); }
+    }
+    assert(q[q.len() - 1] == p[p.len() - 1]);
+    assert(is_path(a, pf, u, k, q));
+}
